@@ -7,10 +7,21 @@ use crate::refenc::{refenc, START};
 use crate::scn::{Built, FileScn, LinkScn, Scenario, BufScn};
 
 pub mod c01;
+pub mod c02;
+pub mod c05;
+pub mod c07;
 pub mod c08;
+pub mod c14;
+pub mod c15;
+pub mod c16;
+pub mod c17;
+pub mod c18;
 
 pub fn all() -> Vec<&'static dyn Prop> {
-    vec![&c01::C01, &c08::C08]
+    vec![
+        &c01::C01, &c02::C02, &c05::C05, &c07::C07, &c08::C08, &c14::C14, &c15::C15, &c16::C16,
+        &c17::C17, &c18::C18,
+    ]
 }
 
 pub fn get(id: &str) -> Option<&'static dyn Prop> {
@@ -113,7 +124,7 @@ pub fn ledger(stream: &[u8], obs: &[Obs], require_tiling: bool) -> Result<(), (&
             ));
         }
         match &o.item {
-            Item::Nothing | Item::End | Item::FinNone | Item::NbWouldBlock => {
+            Item::Nothing | Item::End | Item::FinNone | Item::NbWouldBlock | Item::Probe(_) => {
                 if matches!(o.item, Item::FinNone) && i != boundary {
                     // finalize returned None although bytes were pending since the last boundary?
                     // legal only if the decoder had just delivered (boundary == i) or nothing was consumed
